@@ -487,6 +487,7 @@ func execC17(spec *RunSpec) *Result {
 	rep := simrt.End()
 	res.addStat("cases", int64(len(spec.Stack.Ops)))
 	res.addStat("steps", rep.Steps)
+	res.addStat("clock_span_ns", rep.ClockSpanNs)
 	res.addStat("pool_gets", rep.PoolGets)
 	res.addStat("pool_reused", rep.PoolReused)
 	res.addStat("pool_dropped", rep.PoolDropped)
